@@ -70,11 +70,11 @@ def decodeA : Ty → Bytes → DRes
     let l := decNA (decodeA t) n bs
     ⟨l.res.map (fun (vs, r) => (.list vs, r)), l.req, l.zf⟩
   | .seq t, bs =>                                                      -- decodeSlice
-    match C11.decodeUint bs with
-    | (none, q) => ⟨none, q, false⟩
-    | (some (n, r), q) =>
+    match C11.decodeUintV bs with
+    | none => ⟨none, C11.decodeUintReq bs, false⟩
+    | some (n, r) =>
       let l := decNA (decodeA t) n r
-      ⟨l.res.map (fun (vs, r') => (.list vs, r')), max q l.req, l.zf⟩
+      ⟨l.res.map (fun (vs, r') => (.list vs, r')), max (C11.decodeUintReq bs) l.req, l.zf⟩
   | .enumNil, _ => ⟨none, 1, false⟩                                    -- ValueAt: unknown index
   | .enumCons i t rest, bs =>                                          -- decodeVaryingDataType
     match bs with
